@@ -14,9 +14,11 @@ updates; replicated, pmap, int16-quantized pmap, sharded) and
       agree leaf by leaf with the observed signatures, and the model's update function must map
       every OBSERVED state layout to the observed successor.
 
-The model is the REPAIRED behaviour; its [as_is] variant (one flag per open defect) predicts
-today's internal errors / layout changes and is used only to attribute a failure to a known
-finding."""
+The model is the REPAIRED behaviour; switching on the defect flags of the findings that are still
+open (known_findings.json) gives the model of today's tree, which predicts the remaining internal
+errors / layout changes and is used only to attribute a failure to a known finding.  (Coq's
+[as_is] = all flags on = the pinned tree before the fix: commits; the `_refuted` theorems are about
+it.)"""
 import ast
 import fractions
 import itertools
@@ -700,8 +702,11 @@ def classify(ctx, cases, res, findings):
     else:
       pending.append(c)
       verdicts[c["id"]] = ("mismatch", why)
+  # defect flags that are still open (known_findings.json / proposed findings); flags of defects
+  # that have been fixed in /repo stay off, so "as-is" always means the CURRENT tree
+  open_flags = [fl for fl in BUG_FLAGS if finding_for_flag(findings, fl) is not None]
   if pending:
-    v_asis = evaluate(ctx, pending, res, lambda c: set(BUG_FLAGS), "asis")
+    v_asis = evaluate(ctx, pending, res, lambda c: set(open_flags), "asis")
     need_single = []
     for c in pending:
       r = res[c["id"]]
@@ -729,7 +734,7 @@ def classify(ctx, cases, res, findings):
     # layout / rejection differences: which single defect flag explains the observation?
     if need_single:
       singles = {}
-      for flag in BUG_FLAGS:
+      for flag in open_flags:
         vs = evaluate(ctx, need_single, res, lambda c, flag=flag: {flag}, "single_" + flag)
         for c in need_single:
           ok, _, _ = consistent(c, res[c["id"]], vs[c["id"]], findings)
@@ -739,8 +744,8 @@ def classify(ctx, cases, res, findings):
       multi = [c for c in need_single if not singles.get(c["id"])]
       necessary = {}
       if multi:
-        for flag in BUG_FLAGS:
-          vs = evaluate(ctx, multi, res, lambda c, flag=flag: set(BUG_FLAGS) - {flag}, "without_" + flag)
+        for flag in open_flags:
+          vs = evaluate(ctx, multi, res, lambda c, flag=flag: set(open_flags) - {flag}, "without_" + flag)
           for c in multi:
             ok, _, _ = consistent(c, res[c["id"]], vs[c["id"]], findings)
             if not ok:
